@@ -174,6 +174,21 @@ Proof.
 Qed.
 Print Assumptions c07_reply_fields.
 
+(* the constructor and ReplyWith accept every Go value SetBody accepts and store what SetBody
+   stores, so c07_readback / c07_text_total / c07_wire_total apply to the packets they build *)
+Theorem c07_new_reply_value : forall o command v,
+  (forall sq flag, pbody (new_packet o command sq flag v) = set_body o v /\
+                   cmd (new_packet o command sq flag v) = command /\
+                   seq (new_packet o command sq flag v) = sq /\ flg (new_packet o command sq flag v) = flag) /\
+  (forall p e q, reply_with_value o p command v = Some (e, q) ->
+     endpoint p = Some e /\ cmd q = command /\ seq q = seq p /\ typ q = typ p /\ node q = node p /\
+     refers q = refers p /\ pbody q = set_body o v).
+Proof.
+  intros o command v. split; [intros sq flag; exact (new_packet_body o command sq flag v)|].
+  intros p e q; exact (reply_value_fields o p command v e q).
+Qed.
+Print Assumptions c07_new_reply_value.
+
 (* "... marks refusals with the error flag and the given code": RefuseWith and Refuse, every
    int32 code, every 8-bit flag value of the request *)
 Theorem c07_refuse_fields : forall p ec, 0 <= flg p < 256 -> in_s 32 ec ->
